@@ -22,6 +22,8 @@ type SimSink struct {
 	Gate func(p []byte)
 	// After, if set, is called when a Write has appended its bytes (still inside Write).
 	After func(p []byte)
+	// OnFail, if set, is called (inside Write) the first time a Write fails.
+	OnFail func()
 
 	mu       sync.Mutex
 	buf      []byte
@@ -56,6 +58,9 @@ func (s *SimSink) Write(p []byte) (int, error) {
 			n = 0
 		}
 		err = ErrInjectedWrite
+		if s.Failed == 0 && s.OnFail != nil {
+			s.OnFail()
+		}
 		s.Failed++
 		if len(p) > 0 {
 			s.FailedHeads = append(s.FailedHeads, p[0])
